@@ -66,11 +66,29 @@ def valueClass : Value → String
   | .bool _ => "BooleanValue" | .null => "NullValue" | .enum _ => "EnumValue" | .list _ => "ListValue"
   | .obj _ => "ObjectValue"
 
-/-- the `.value` attribute; `none` = the class has none (`AttributeError`) -/
-def valueAttr : Value → Option String
-  | .int s => some s | .float s => some s | .str s => some s | .enum s => some s
-  | .bool b => some (toString b)
-  | _ => none
+mutual
+/-- `_same_value`: same class and same `.value`; lists, objects, null and variables by their printed form
+    (= structural equality of the literal; the `block` flag of strings is not in this AST) -/
+def sameValue : Value → Value → Bool
+  | .var a, .var b => a == b
+  | .int a, .int b => a == b
+  | .float a, .float b => a == b
+  | .str a, .str b => a == b
+  | .bool a, .bool b => a == b
+  | .null, .null => true
+  | .enum a, .enum b => a == b
+  | .list as, .list bs => sameValues as bs
+  | .obj fs, .obj gs => sameFields fs gs
+  | _, _ => false
+def sameValues : List Value → List Value → Bool
+  | [], [] => true
+  | a :: as, b :: bs => sameValue a b && sameValues as bs
+  | _, _ => false
+def sameFields : List ObjField → List ObjField → Bool
+  | [], [] => true
+  | .mk n a :: fs, .mk m b :: gs => n == m && sameValue a b && sameFields fs gs
+  | _, _ => false
+end
 
 def insertArg (a : Arg) : List Arg → List Arg
   | [] => [a]
@@ -78,14 +96,11 @@ def insertArg (a : Arg) : List Arg → List Arg
 /-- `sorted(args, key=name)` (stable) -/
 def sortArgs (as : List Arg) : List Arg := as.foldl (fun acc a => insertArg a acc) []
 
-/-- `_same_arguments`; `none` = `AttributeError` -/
+/-- `_same_arguments` (always `some`: the `AttributeError` of ledger V2 is fixed, commit 955bf13) -/
 def sameArgsZip : List Arg → List Arg → Option Bool
   | a :: as, b :: bs =>
     if a.name != b.name then some false
-    else if valueClass a.value != valueClass b.value then some false
-    else match valueAttr a.value, valueAttr b.value with
-      | some x, some y => if x == y then sameArgsZip as bs else some false
-      | _, _ => none
+    else if sameValue a.value b.value then sameArgsZip as bs else some false
   | _, _ => some true
 def sameArguments (a b : List Arg) : Option Bool :=
   if a.length != b.length then some false else sameArgsZip (sortArgs a) (sortArgs b)
